@@ -120,6 +120,7 @@ func run(c Case) *vh.Violation {
 	extra := map[string]string{}
 	asserts := map[string]string{}
 	expected := map[string][]string{} // output file -> struct names
+	optional := map[string][]string{} // output file -> struct names that may or may not exist (aliases)
 	nAssert := 0
 	for pi := range c.Mod.Pkgs {
 		p := &c.Mod.Pkgs[pi]
@@ -148,6 +149,12 @@ func run(c Case) *vh.Violation {
 		}
 		for ii := range ifs {
 			it := &ifs[ii]
+			if it.Alias {
+				// an alias declaration is not a type of its own: whether it is mocked is don't-care
+				// (with all: true), but its target must still be mocked exactly once
+				optional[outFile] = append(optional[outFile], mockName(it.Name))
+				continue
+			}
 			expected[outFile] = append(expected[outFile], mockName(it.Name))
 			if !it.Exported() && !c.R.InPackage() {
 				continue // not nameable from here
@@ -247,6 +254,15 @@ func run(c Case) *vh.Violation {
 		for _, n := range names {
 			if count[n] != 1 {
 				return fail(fmt.Sprintf("decl-count/%d", count[n]), "mock type %s is declared %d times in %s (want exactly once)", n, count[n], outFile)
+			}
+		}
+		for _, n := range optional[outFile] {
+			if count[n] > 1 {
+				return fail(fmt.Sprintf("decl-count/%d", count[n]), "mock type %s is declared %d times in %s", n, count[n], outFile)
+			}
+			mockTypes -= count[n]
+			if count[n] == 1 {
+				vh.DontCare("alias-declaration-mocked")
 			}
 		}
 		if mockTypes != len(names) {
